@@ -62,7 +62,69 @@ def c05(tier, seed):
     return res
 
 
-CHECKS = {"C04": c04, "C05": c05, "C01": c01, "C10": c10, "C11": c11, "C12": c12}
+def _c08_signature(why):
+    """classify a rejected numeric case from TLC's own diagnostics (spec/Trace_Numeric.tla Explain)"""
+    import re
+    flat = " ".join(why.split())
+    m = re.search(r'multipleOf\\":([0-9.]+)', flat)
+    mism = re.findall(r'<<"([-0-9.]+)", "expected", (TRUE|FALSE), "got", (\d)>>', flat)
+    sig = {"kind": "other", "schema": re.search(r'"WHY", "(.*?)", "compiled"', flat).group(1) if '"WHY"' in flat else flat[:200],
+           "mismatches": [f"{t}:{e}:{g}" for t, e, g in mism][:6]}
+    if m and "." in m.group(1) and mism:
+        k = len(m.group(1).split(".")[1])
+        def nfrac(t):
+            return len(t.split(".")[1]) if "." in t else 0
+        if all(e == "TRUE" and g == "0" and nfrac(t) != k for t, e, g in mism):
+            sig["kind"] = "fractional-multipleOf-needs-exact-digit-count"
+    return sig
+
+
+def c08(tier, seed):
+    import random
+    from fractions import Fraction as Fr
+    from . import num, numgen
+    res = core.Result("C08", tier, seed)
+    rng = random.Random(f"C08-{seed}")
+    int_muls = [None, None, Fr(1), Fr(2), Fr(3), Fr(7), Fr(10)]
+    if tier == "quick":
+        cases = numgen.grid(rng, 7, int_muls, decimal_share=0.25, big_share=0.08, limit=1800)
+        frac = numgen.grid(rng, 3, [Fr("0.5"), Fr("0.25")], decimal_share=0.3, big_share=0, limit=24)
+        nsh = 12
+    else:
+        cases = numgen.grid(rng, 40, int_muls, decimal_share=0.25, big_share=0.08, limit=60000)
+        frac = numgen.grid(rng, 8, [Fr("0.5"), Fr("0.25"), Fr("0.1"), Fr("2.5")], decimal_share=0.3, big_share=0, limit=120)
+        nsh = 16
+    cs = numgen.build_cases(rng, cases)
+    rejects = num.run_cases("C08", tier, seed, cs, res, "Trace_Numeric", nshards=nsh, timeout=7200)
+    # fractional multipleOf separately (a known dependency limitation lives there)
+    cf = numgen.build_cases(rng, frac)
+    rejects += num.run_cases("C08f", tier, seed, cf, res, "Trace_Numeric", nshards=4, timeout=3600)
+    for rj in rejects:
+        why = num.explain("Trace_Numeric", rj["replay"])
+        res.violation(_c08_signature(why), rj["replay"])
+    res.cov["rule"] = ("cases = numeric schemas from a grid (all integer pairs in a window x inclusive/exclusive x "
+                       "integer/number x multipleOf, decimal bounds, magnitudes near powers of ten) each with ~40 plain "
+                       "decimal literals in and around the interval; TLC decides every verdict with exact digit-sequence "
+                       "arithmetic (spec/Numeric.tla); evaluations = literal verdicts")
+    res.cov["distinct_nontrivial"] = len({c["gram"]["text"] for c in cs + cf})
+    # negative control: flip one verdict of a recorded case, TLC must reject it
+    wd = core.os.path.join(core.WORK, f"C08-{tier}")
+    lines = core.read_lines(core.os.path.join(wd, "trace0.ndjson"))
+    ev = json.loads(lines[1])
+    if ev.get("lits"):
+        ev["lits"][0]["acc"] = 1 - min(1, ev["lits"][0]["acc"])
+        bp = core.os.path.join(wd, "negctl.ndjson")
+        open(bp, "w").write(lines[0] + "\n" + json.dumps(ev) + "\n")
+        r = core.tlc_trace("Trace_Numeric", bp, tag="neg-C08")
+        res.cov["negative_controls"].append({"flipped_verdict_rejected": not r["accepted"]})
+        if r["accepted"]:
+            raise core.ToolError("negative control accepted")
+    res.assumptions += ["TLC; harness num driver (feeds literal bytes + EOS through validate_tokens on a single-byte vocabulary)",
+                        "all-zero fractions (1.0) and negative zero are not generated"]
+    return res
+
+
+CHECKS = {"C08": c08, "C04": c04, "C05": c05, "C01": c01, "C10": c10, "C11": c11, "C12": c12}
 
 
 def setup():
